@@ -284,6 +284,11 @@ func fuzzBatch(seed int64, n int, adversarial bool) *fuzzReport {
 		"name(//comment())", "name(//processing-instruction())", "namespace-uri(//@*)", "name(//namespace::*)", "//*[local-name(/) = '']"} {
 		tryExpr(t, true)
 	}
+	for _, t := range []string{"translate('Zürich', 'abcdefghijklmnopqrstuvwxyz', 'ABCDEFGHIJKLMNOPQRSTUVWXYZ')", "translate('中文😀', 'a', 'b')", "contains('café', 'é')",
+		"substring('12345', 3, -1)", "substring('añb', 2, -5)", "substring('😀x', 2, 0 div 0)", "substring-before('é', '')", "normalize-space(' é ')",
+		"starts-with('😀', '')", "string-length(translate('é́', 'e', ''))", "substring('12345', 1.5, -0.5)", "substring('', 1, 1 div 0)"} {
+		tryExpr(t, true)
+	}
 	// strings that are almost numerals: conversions are total and never fail internally
 	for _, lit := range []string{"-", " - ", ".", "-.", "+", "", " ", "--1", "1-", "-\t", "1.2.3", "٣", "- 1", "1e", "0x", "-0", ".-"} {
 		for _, tmpl := range []string{"number('%s')", "'%s' * 2", "-'%s'", "'%s' < 1", "sum(//*) + '%s'", "round('%s')", "substring('abc', '%s')", "//*['%s' + 1]", "string(number('%s'))"} {
